@@ -1,7 +1,9 @@
 (* Property C06: leg fusion is a lossless, consistently ordered bijection.
-   Only statements; every proof is `exact <lemma of Proofs/LegP.v, Proofs/PipeP.v>`.
-   Models: Model/ChargeL.v (make_valid), Model/Leg.v (LegCharge), Model/Pipe.v (LegPipe). *)
-From TenpyV Require Import Base.Prelude Model.ChargeL Model.Leg Model.Pipe Proofs.LegP Proofs.PipeP.
+   Only statements; every proof is `exact <lemma of Proofs/LegP.v, Proofs/PipeP.v, Proofs/PipeP2.v>`.
+   Models: Model/ChargeL.v (make_valid), Model/Leg.v (LegCharge), Model/Pipe.v (LegPipe),
+   Model/PipeMaps.v (take_flat, tiles, qmap_rows_of, qm_group/qm_blocks, combine_fn/split_fn). *)
+From TenpyV Require Import Base.Prelude Model.ChargeL Model.Leg Model.Pipe Model.PipeMaps
+  Proofs.LegP Proofs.PipeP Proofs.PipeP2.
 Open Scope Z_scope.
 
 (* map_incoming_flat is a bijection between the index tuples prod_l [0, ind_len_l) and [0, prod_l ind_len_l),
@@ -33,6 +35,51 @@ Theorem T06_qmap_shape : forall ci legs qconj srt bun j, legs_ok legs ->
   length (p_qmap p) = length (p_rows p).
 Proof. exact qmap_shape. Qed.
 
+(* gap-free, disjoint tiling: for every outgoing block I of every pipe, the slices q_map[:, 0:2] of the rows with
+   I_s = I (there is at least one), in q_map order, satisfy: first start = 0, every stop = the next start,
+   start <= stop, last stop = size of the outgoing block I (`tiles`); hence sorted by start.  These rows are the
+   rows of the I-th group of (sorted, bunched) block tuples with the running offsets inside the group, and q_map
+   as a whole is the concatenation of these groups (rows ordered by I_s) *)
+Theorem T06_qmap_tiling : forall ci legs qconj srt bun I, legs_ok legs ->
+  let p := pipe_init ci legs qconj srt bun in
+  (I < length (p_blocks p))%nat ->
+  let rowsI := qmap_rows_of p I in
+  rowsI <> [] /\
+  tiles 0 (map qslice rowsI) (fst (nth I (p_blocks p) (0, []))) /\
+  Sorted Z.le (map q_b0 rowsI) /\
+  rowsI = qm_group I (nth I (group_rows bun (p_rows p)) []) /\
+  p_qmap p = qm_blocks 0 (group_rows bun (p_rows p)).
+Proof. exact qmap_tiling. Qed.
+
+(* q_map_slices: q_map[q_map_slices[I] : q_map_slices[I+1]] are exactly the rows with I_s = I (non-empty range) *)
+Theorem T06_qmap_slices : forall ci legs qconj srt bun I,
+  let p := pipe_init ci legs qconj srt bun in
+  (I < length (p_blocks p))%nat ->
+  let a := nth I (p_qmap_slices p) 0 in
+  let b := nth (S I) (p_qmap_slices p) 0 in
+  0 <= a < b /\ b <= Z.of_nat (length (p_qmap p)) /\
+  qmap_rows_of p I = firstn (Z.to_nat (b - a)) (skipn (Z.to_nat a) (p_qmap p)) /\
+  length (p_qmap_slices p) = S (length (p_blocks p)).
+Proof. exact qmap_slices_rows. Qed.
+
+(* combine_legs / split_legs at the level of index maps.  A dense tensor is a function of its index:
+   f : incoming index tuple -> entry, g : outgoing flat index -> entry;
+   combine_fn p f = fun k => f (map_outgoing_flat p k), split_fn p g = fun t => g (map_incoming_flat p t).
+   split (combine f) = f on every in-range index tuple, combine (split g) = g on [0, prod ind_len), the entry f t
+   sits at position map_incoming_flat t of combine f, and every position of the outgoing leg is filled from an
+   in-range tuple.  (That Array.combine_legs/split_legs move the entries of the block-sparse tensor according to
+   these index maps is checked by the dense oracle, not proved.) *)
+Theorem T06_split_combine : forall ci legs qconj srt bun, legs_ok legs ->
+  let p := pipe_init ci legs qconj srt bun in
+  let N := prodZ (map ind_len legs) in
+  (forall (f : list Z -> Z) t, idx_ok legs t -> split_fn p (combine_fn p f) t = f t) /\
+  (forall (g : Z -> Z) k, 0 <= k < N -> combine_fn p (split_fn p g) k = g k) /\
+  (forall (f : list Z -> Z) t, idx_ok legs t ->
+     exists k, map_incoming_flat p t = Some k /\ 0 <= k < N /\ combine_fn p f k = f t) /\
+  (forall (g : Z -> Z) k, 0 <= k < N ->
+     exists t, map_outgoing_flat p k = Some t /\ idx_ok legs t /\ split_fn p g t = g k).
+Proof. exact split_combine_fn. Qed.
+
 (* with sort=True (and at least one charge) the incoming block tuples are processed in lexsorted order *)
 Theorem T06_pipe_sorted : forall ci legs qconj, ci <> [] -> Sorted rle (pipe_rows ci legs qconj true).
 Proof. exact pipe_rows_sorted. Qed.
@@ -49,13 +96,31 @@ Theorem T06_get_qindex_inverse : forall l q w, nonneg (bsz l) -> (q < nblocks l)
   get_qindex l (offs (bsz l) q + w) = Some (q, w) /\ 0 <= offs (bsz l) q + w < ind_len l.
 Proof. exact get_qindex_inverse. Qed.
 
-(* sort: perm_qind is a permutation, the (size, charge) blocks are the old blocks in that order (every index keeps
-   its charge), the result is lexsorted.  Partial: the flat-index form qflat(sorted) = qflat[perm_flat_from_perm_qind]
-   is not proved (checked on every generated leg by the correspondence + oracle). *)
-Theorem T06_sort_partial : forall l,
+(* sort (bunch on or off): perm_qind is a permutation of the block numbers, the (size, charge) blocks are the old
+   blocks in that order (bunched if requested), the result is lexsorted, and in the flat-index form
+   qflat(sorted) = qflat(leg)[perm_flat_from_perm_qind(perm_qind)]: the charge attached to every flat index is
+   preserved; perm_flat (the concatenated index ranges of the blocks in the permuted order) is a permutation of
+   [0, 1, .., ind_len - 1] = zrange 0 ind_len; ind_len and qconj are unchanged *)
+Theorem T06_sort : forall l bun, nonneg (bsz l) ->
   let s := ssort (combine (seq 0 (nblocks l)) (blocks l)) in
-  Permutation (map fst s) (seq 0 (nblocks l)) /\ map snd s = map (blk l) (map fst s) /\ Sorted kle s.
-Proof. exact sort_spec. Qed.
+  let perm := fst (sort_leg bun l) in
+  let sorted := snd (sort_leg bun l) in
+  perm = map fst s /\
+  Permutation perm (seq 0 (nblocks l)) /\
+  map snd s = map (blk l) perm /\
+  Sorted kle s /\
+  blocks sorted = (if bun then bunch_blocks (map (blk l) perm) else map (blk l) perm) /\
+  qc sorted = qc l /\
+  qflat sorted = take_flat [] (qflat l) (perm_flat l perm) /\
+  Permutation (perm_flat l perm) (zrange 0 (Z.to_nat (ind_len l))) /\
+  ind_len sorted = ind_len l.
+Proof. exact sort_full. Qed.
+
+(* perm_flat_from_perm_qind for ANY list of block numbers: the blocks taken in that order carry the charges found
+   at the flat indices perm_flat *)
+Theorem T06_perm_flat : forall l perm, nonneg (bsz l) ->
+  qflat_blocks (map (blk l) perm) = take_flat [] (qflat l) (perm_flat l perm).
+Proof. exact perm_flat_take. Qed.
 
 (* bunch: the charge of every index is unchanged, no two neighbouring blocks of the result have equal charge *)
 Theorem T06_bunch : forall bs, nonneg (map fst bs) ->
@@ -85,13 +150,43 @@ Example T06_example :
   /\ map_outgoing_flat p 6 = Some [1; 1] /\ map snd (p_blocks p) = [[1; -1]; [0; 0]; [2; 0]; [1; 1]].
 Proof. vm_compute. repeat split. Qed.
 
+(* the q_map of that pipe: 4 outgoing blocks (sizes 1, 2, 2, 4); block 0 contains an empty slice [1, 1) *)
+Example T06_example_tiling :
+  let p := pipe_init [3; 1] ex_legs (-1) true true in
+  map fst (p_blocks p) = [1; 2; 2; 4] /\ p_qmap_slices p = [0; 2; 3; 5; 6] /\
+  map (fun I => map qslice (qmap_rows_of p I)) (seq 0 4) = [[(0, 1); (1, 1)]; [(0, 2)]; [(0, 2); (2, 2)]; [(0, 4)]].
+Proof. vm_compute. repeat split. Qed.
+
+(* combine / split of the dense 3 x 3 tensor f [i; j] = 10 i + j through that pipe *)
+Definition ex_f (t : list Z) : Z := 10 * nth 0 t 0 + nth 1 t 0.
+Example T06_example_split_combine :
+  let p := pipe_init [3; 1] ex_legs (-1) true true in
+  map (combine_fn p ex_f) (zrange 0 9) = [2; 12; 22; 0; 1; 10; 11; 20; 21] /\
+  map (split_fn p (combine_fn p ex_f)) (zgrid [3; 3]) = map ex_f (zgrid [3; 3]) /\
+  map (combine_fn p (split_fn p (fun k => k * k))) (zrange 0 9) = map (fun k => k * k) (zrange 0 9).
+Proof. vm_compute. repeat split. Qed.
+
+(* sort of a leg with 5 blocks (one of size 0, equal charges in non-adjacent blocks) *)
+Definition ex_leg : leg := mkLeg [(2, [1]); (1, [0]); (0, [2]); (2, [0]); (1, [1])] 1.
+Example T06_example_sort :
+  nonneg (bsz ex_leg) /\
+  sort_leg true ex_leg = ([1; 3; 0; 4; 2]%nat, mkLeg [(3, [0]); (3, [1]); (0, [2])] 1) /\
+  perm_flat ex_leg [1; 3; 0; 4; 2]%nat = [2; 3; 4; 0; 1; 5] /\
+  qflat ex_leg = [[1]; [1]; [0]; [0]; [0]; [1]] /\
+  qflat (snd (sort_leg true ex_leg)) = [[0]; [0]; [0]; [1]; [1]; [1]].
+Proof. split; [repeat constructor; cbn; lia|]. vm_compute. repeat split. Qed.
+
 Print Assumptions T06_flat_bijection.
 Print Assumptions T06_fusion_rule.
 Print Assumptions T06_qmap_shape.
+Print Assumptions T06_qmap_tiling.
+Print Assumptions T06_qmap_slices.
+Print Assumptions T06_split_combine.
 Print Assumptions T06_pipe_sorted.
 Print Assumptions T06_get_qindex.
 Print Assumptions T06_get_qindex_inverse.
-Print Assumptions T06_sort_partial.
+Print Assumptions T06_sort.
+Print Assumptions T06_perm_flat.
 Print Assumptions T06_bunch.
 Print Assumptions T06_project.
 Print Assumptions T06_flip_charges_qconj.
